@@ -581,6 +581,15 @@ impl<T: Clone, N, S: Storage<T, N>> Cluster<T, N, S> {
 
     fn vote_request(&mut self, request: &Request<T>) -> Result<Response, Response> {
         self.validate_hash(request)?;
+
+        // A candidate asked for its vote in a newer term cannot win its own
+        // election any more: it gives the candidacy up and considers the
+        // request. Otherwise two nodes whose terms differ by one can refuse
+        // each other's votes forever (e.g. in a cluster of two).
+        if matches!(self.state, ClusterState::Candidate) && request.term > self.term {
+            self.state = ClusterState::Election;
+        }
+
         self.validate_vote_state(request)?;
         self.validate_term_for_vote(request)?;
         self.validate_log_for_vote(request)?;
